@@ -68,6 +68,7 @@ func {{ .RequestDecoder }}(mux goahttp.Muxer, decoder func(*http.Request) goahtt
 	payload.{{ .PasswordField }} = {{ if .PasswordPointer }}&{{ end }}pass
 {{- end }}{{ end }}
 {{- range .HeaderSchemes }}
+	{{- if or (eq .Name "Authorization") (eq .Type "JWT") (eq .Type "OAuth2") }}
 	{{- if not .CredRequired }}
 	if payload.{{ .CredField }} != nil {
 	{{- end }}
@@ -78,6 +79,7 @@ func {{ .RequestDecoder }}(mux goahttp.Muxer, decoder func(*http.Request) goahtt
 	}
 	{{- if not .CredRequired }}
 	}
+	{{- end }}
 	{{- end }}
 {{- end }}
 
